@@ -139,7 +139,7 @@ def steady_state_transport_solver(
         fftq0 = fftshift(fftq0)
 
         # truncate fourier series by removing higher-frequency components
-        tfftq0 = fftq0[dly : nye - dly, dlx : nxe - dlx]
+        tfftq0 = fftq0[dly : dly + nly, dlx : dlx + nlx]
 
         # unshift
         tfftq0 = ifftshift(tfftq0)
@@ -266,12 +266,9 @@ def steady_state_transport_solver(
     tfftq = fftshift(tfftq, axes=(1, 2))
 
     # untruncate
-    fftp = np.pad(
-        tfftp, ((0, 0), (dly, dly), (dlx, dlx)), mode="constant", constant_values=0.0
-    )
-    fftq = np.pad(
-        tfftq, ((0, 0), (dly, dly), (dlx, dlx)), mode="constant", constant_values=0.0
-    )
+    pad_width = ((0, 0), (dly, nye - nly - dly), (dlx, nxe - nlx - dlx))
+    fftp = np.pad(tfftp, pad_width, mode="constant", constant_values=0.0)
+    fftq = np.pad(tfftq, pad_width, mode="constant", constant_values=0.0)
 
     # unshift
     fftp = ifftshift(fftp, axes=(1, 2))
